@@ -583,6 +583,41 @@ var c13StdoutAllowed = map[string]string{
 	"search.(*Search).Go": "library default of Options.Output; the driver always overrides it (C13.R1 WithOutput obligation)",
 }
 
+// defaultsHelper: fn is a private helper (same package, never used as a value) all of whose static
+// call chains start in one allow-listed host (Search.Go / NewDriver), followed transitively.
+func (k *c13k) defaultsHelper(fn *ssa.Function) (string, string) {
+	for host, why := range c13StdoutAllowed {
+		root := k.p.Func(host)
+		if root == nil || fn == nil || fn == root || fnPkgPath(fn) != fnPkgPath(root) {
+			continue
+		}
+		if k.privateUnder(fn, root, 3) {
+			return host, why
+		}
+	}
+	return "", ""
+}
+
+// privateUnder: like onlyUnder, and every function on the way is unexported (no callers outside the program).
+func (k *c13k) privateUnder(fn, root *ssa.Function, depth int) bool {
+	for fn.Parent() != nil {
+		fn = fn.Parent()
+	}
+	if fn == root {
+		return true
+	}
+	obj := fnObj(fn)
+	if depth == 0 || obj == nil || obj.Exported() || k.valueUse[fn] || len(k.callers[fn]) == 0 {
+		return false
+	}
+	for _, ci := range k.callers[fn] {
+		if !k.privateUnder(ci.Parent(), root, depth-1) {
+			return false
+		}
+	}
+	return true
+}
+
 var c13PrintAllowed = map[string]string{
 	"debug.perft": "split-mode output of the non-protocol perft command; runs on the command goroutine while no search is active",
 }
@@ -635,6 +670,8 @@ func (k *c13k) r1() {
 			nOut++
 			if why, ok := c13StdoutAllowed[fnName(fn)]; ok {
 				c.OkTrivial(rule, "stdout@"+fnName(fn), s.Pos, "allow-listed: %s", why)
+			} else if host, why := k.defaultsHelper(fn); host != "" {
+				c.OkTrivial(rule, "stdout@"+fnName(fn), s.Pos, "helper called only from %s — allow-listed: %s", host, why)
 			} else {
 				c.Fail(rule, "stdout@"+fnName(fn), s.Pos, "%s uses os.Stdout directly: output bypasses the single-writer channel sink and can interleave with writeOutput", fnName(fn))
 			}
@@ -726,6 +763,10 @@ func (k *c13k) r1() {
 		})
 	}
 	for fnm, ss := range p.writersOf("search.Options.Output") {
+		if host, _ := k.defaultsHelper(ss[0].Fn); host == "search.(*Search).Go" && !strings.HasSuffix(fnm, "#escape") {
+			c.Ok(rule, "options-output@"+fnm, ss[0].Pos, "Options.Output default stored by %s, a helper of package search called only from Search.Go", fnm)
+			continue
+		}
 		c.Check(fnm == "search.WithOutput$1" || fnm == "search.(*Search).Go", rule, "options-output@"+fnm, ss[0].Pos, "Options.Output stored by %s (allowed: the WithOutput option and the default in Search.Go)", fnm)
 	}
 	// (d) handleGo passes WithOutput(sink) on every path
